@@ -36,6 +36,21 @@ def hasTL2Code (d : Desc) (ty : Nat) : Bool :=
   | some (.union u) => u.hasTL2
   | _ => false
 
+/-- `FillRandomResultTL1` of a function object whose fields are `v`: fill the result type with the nat arguments taken
+from the fields, write it (boxed unless the result reference is bare) -/
+def fillResult (d : Desc) (gi : GenInfo) (fuel ty : Nat) (v : Val) (rg : RG) : String × RG :=
+  match d.get? ty, v with
+  | some (.struct s), .struct vals =>
+    if !s.isFunction then ("n/a", rg) else
+    match natArgVals vals [] s.resultNatArgs with
+    | none => ("model-err desc", rg)
+    | some na =>
+      match fillTL1 d gi fuel s.resultTy na rg with
+      | .error .fuel => ("diverge", rg)
+      | .error e => ("model-" ++ errStr e, rg)
+      | .ok (rv, rg') => (outBytes (writeTL1 d (fuel + 1) s.resultTy s.resultBare na rv), rg')
+  | _, _ => ("n/a", rg)
+
 /-- the harness stops a run that draws more than this many words (`randBudget` in go/hgen/rand.go.tmpl) -/
 def randBudget : Nat := 200000
 
@@ -81,10 +96,13 @@ def handleRand : OpHandler := fun st op args =>
       | .error .fuel => some "diverge"
       | .error e => some ("model-" ++ errStr e)
       | .ok (v, rg) =>
+        -- a function: `FillRandomResultTL1` continues with the same generator
+        let (res, rg) := fillResult d sc.genInfo fuel ty v rg
+        if res == "diverge" then some "diverge" else
         if rg.pos > randBudget then some s!"big n={rg.pos}" else
         let w := outBytes (writeTL1 d (fuel + 1) ty false [] v)
         let w2 := if hasTL2Code d ty then "ok" else "n/a"
-        some s!"ok n={rg.pos} w1b={w} w2={w2} wj=ok again=same dirty=same"
+        some s!"ok n={rg.pos} w1b={w} res={res} w2={w2} wj=ok again=same dirty=same"
     | _, _, _ => some "bad-op"
   | "rgp", [_sid, seed, count] =>
     match seed.toNat?, count.toNat? with
